@@ -88,6 +88,7 @@ def expect_delivery(eng, ctx, stream, expect, cutsets, label, exact=True):
     for cuts in cutsets:
         chunks = split(stream, cuts)
         w = {"kind": "p1", "chunks": chunks, "expect": [SBytes(e) for e in expect], "exact": exact}
+        ctx.intend(w)
         _, got = read_chunks(chunks)
         if first:
             ctx.witness, ctx.obs, first = w, p1_sig(got), False
